@@ -84,9 +84,24 @@ func foreignHello(r *rand.Rand, echKind string, key *gen.KeyMat, tls13 bool, big
 	if big {
 		exts = append(exts, gen.Ext{Type: 0xff77, Data: gen.RandBytes(r, 2000+r.IntN(13000))})
 	}
+	if !used[21] && r.IntN(4) == 0 {
+		// an RFC 7685 padding extension: zeros as the RFC says, or whatever a sloppy client left there
+		pad := make([]byte, r.IntN(80))
+		if r.IntN(2) == 0 {
+			pad = gen.RandBytes(r, 1+r.IntN(80))
+		}
+		exts = append(exts, gen.Ext{Type: 21, Data: pad})
+		used[21] = true
+	}
 	switch echKind {
 	case "grease":
-		exts = append(exts, gen.Ext{Type: 0xfe0d, Data: gen.ECHOuter{KDF: 1, AEAD: 1, ConfigID: uint8(r.IntN(256)), Enc: gen.RandBytes(r, 32), Payload: gen.RandBytes(r, 100+r.IntN(200))}.Data()})
+		// (enc is opaque<0..2^16-1>: an empty one is well formed, and means nothing on a first hello)
+		// (an empty enc under the id of a HELD key is a different matter: that hello is ill-formed, C04)
+		gid := uint8(r.IntN(256))
+		for gid == key.ID || gid == key.ID+1 || gid == 200 || gid == 201 {
+			gid = uint8(r.IntN(256))
+		}
+		exts = append(exts, gen.Ext{Type: 0xfe0d, Data: gen.ECHOuter{KDF: 1, AEAD: 1, ConfigID: gid, Enc: gen.RandBytes(r, []int{32, 32, 32, 0}[r.IntN(4)]), Payload: gen.RandBytes(r, 100+r.IntN(200))}.Data()})
 	case "sameid":
 		exts = append(exts, gen.Ext{Type: 0xfe0d, Data: gen.ECHOuter{KDF: 1, AEAD: uint16(1 + r.IntN(3)), ConfigID: key.ID, Enc: gen.RandBytes(r, 32), Payload: gen.RandBytes(r, 100+r.IntN(200))}.Data()})
 	case "badenc":
@@ -118,7 +133,7 @@ func genC05(env *core.Env, emit func(core.Case)) {
 	n := env.Pick(2500, 60000)
 	for i := 0; i < n; i++ {
 		echKind := []string{"none", "none", "grease", "sameid", "othersuite", "badenc"}[r.IntN(6)]
-		keyset := []string{"none", "unrelated", "sameid"}[r.IntN(3)]
+		keyset := []string{"none", "unrelated", "sameid", "unusable"}[r.IntN(4)]
 		tls13 := r.IntN(4) != 0
 		big := r.IntN(12) == 0
 		h := foreignHello(r, echKind, key, tls13, big)
@@ -143,6 +158,17 @@ func genC05(env *core.Env, emit func(core.Case)) {
 			keys = echKeys(other)
 		case "sameid":
 			keys = echKeys(key, other)
+		case "unusable":
+			// a key list shared with another TLS stack: one entry is for a KEM this package cannot load
+			// (P-256), one has a private key of the wrong length. They open nothing and disturb nothing.
+			// (under config ids no hello of this campaign names: a broken key that a hello does select is the
+			// operator's error, and fatal)
+			p256 := gen.EncodeConfigWith(200, 0x0010, gen.RandBytes(r, 65), gen.AllSuites, "public.example", 30, nil)
+			short := gen.EncodeConfigWith(201, 0x20, gen.RandBytes(r, 32), gen.AllSuites, "public.example", 30, nil)
+			keys = append(echKeys(other), ech.Key{Config: p256, PrivateKey: gen.RandBytes(r, 32)}, ech.Key{Config: short, PrivateKey: gen.RandBytes(r, 31)})
+			if r.IntN(2) == 0 {
+				keys = append([]ech.Key{keys[1]}, keys...)
+			}
 		}
 		s := connh.NewSess(keys)
 		s.Register(rec)
